@@ -436,7 +436,9 @@ func (k Key) validate(op KeyOp) error {
 		crv, x, y, d := k.EC2()
 		switch op {
 		case KeyOpVerify:
-			if len(x) == 0 || len(y) == 0 {
+			// a coordinate equal to zero is present but empty once its
+			// leading zero octets are trimmed
+			if x == nil || y == nil {
 				return ErrEC2NoPub
 			}
 		case KeyOpSign:
@@ -563,10 +565,10 @@ func (k *Key) MarshalCBOR() ([]byte, error) {
 		// If EC2 key, ensure that x and y are padded to the correct size.
 		crv, x, y, _ := k.EC2()
 		if size := curveSize(crv); size > 0 {
-			if 0 < len(x) && len(x) < size {
+			if x != nil && len(x) < size {
 				tmp[KeyLabelEC2X] = append(make([]byte, size-len(x), size), x...)
 			}
-			if 0 < len(y) && len(y) < size {
+			if y != nil && len(y) < size {
 				tmp[KeyLabelEC2Y] = append(make([]byte, size-len(y), size), y...)
 			}
 		}
@@ -709,7 +711,7 @@ func (k *Key) PrivateKey() (crypto.PrivateKey, error) {
 	switch alg {
 	case AlgorithmES256, AlgorithmES384, AlgorithmES512:
 		_, x, y, d := k.EC2()
-		if len(x) == 0 || len(y) == 0 {
+		if x == nil || y == nil {
 			return nil, fmt.Errorf("%w: compressed point not supported", ErrInvalidPrivKey)
 		}
 
